@@ -93,6 +93,14 @@ class Impl:
             return z3.If(self.form(t[1]), self.term(t[2]), self.term(t[3]))
         raise ValueError(t)
 
+    def cond(self, f):
+        """condition of Implies / IfThenElse: the constants are passed as Python bools (the field type is Union[BoolRef, bool])"""
+        if f[0] == 'FT':
+            return True
+        if f[0] == 'FF':
+            return False
+        return self.form(f)
+
     def form(self, f):
         h = f[0]
         if h == 'FT':
@@ -206,9 +214,9 @@ class Impl:
         if h == 'CXor':
             return ps.Xor(constraint_1=self.operand(e[1]), constraint_2=self.operand(e[2]), **kw)
         if h == 'CImplies':
-            return ps.Implies(condition=self.form(e[1]), list_of_constraints=[self.operand(x) for x in e[2]], **kw)
+            return ps.Implies(condition=self.cond(e[1]), list_of_constraints=[self.operand(x) for x in e[2]], **kw)
         if h == 'CIte':
-            return ps.IfThenElse(condition=self.form(e[1]), then_list_of_constraints=[self.operand(x) for x in e[2]],
+            return ps.IfThenElse(condition=self.cond(e[1]), then_list_of_constraints=[self.operand(x) for x in e[2]],
                                  else_list_of_constraints=[self.operand(x) for x in e[3]], **kw)
         if h == 'CWorkLoad':
             d = {}
